@@ -169,6 +169,7 @@ package jsonpatch
 
 //@ func (*lazyNode).tryDoc
 //@   requires node: nodeOK(n)
+//@   ensures[C15] parsed-object-carries-options: result ==> n.doc.opts != nil
 //@   modifies n.doc, n.which, n.doc.obj, n.doc.keys
 //@   ensures[C01,C05] doc-ptr: n.doc == old(n.doc) || fresh(n.doc) || n.doc == nil
 //@   ensures[C01,C05] frame-docs: forall d *partialDoc {d.obj} {d.keys} :: old(allocated(d) && d.obj != nil) ==> d.obj == old(d.obj) && d.keys == old(d.keys)
@@ -220,6 +221,7 @@ package jsonpatch
 //@   invariant skipped-ws: forall j int :: 0 <= j && j <= rangeindex ==> buf[j] == ' ' || buf[j] == '\n' || buf[j] == '\t'
 
 //@ func (*lazyNode).intoDoc
+//@   ensures[C02] maps-kept: forall m map[string]*lazyNode, k string {domsel(m, k)} {m[k]} :: old(allocated(m)) ==> ((k in m) <==> old(k in m)) && m[k] == old(m[k])
 //@   requires node: nodeOK(n)
 //@   modifies n.doc, n.which, n.doc.obj, n.doc.keys, n.doc.opts
 //@   ensures[C01,C05] doc-ptr: n.doc == old(n.doc) || fresh(n.doc) || n.doc == nil
@@ -239,6 +241,7 @@ package jsonpatch
 //@   ensures[C07] members-kept: forall m map[string]*lazyNode, k string {domsel(m, k)} :: old(k in m) ==> k in m
 
 //@ func (*lazyNode).intoAry
+//@   ensures[C02] maps-kept: forall m map[string]*lazyNode, k string {domsel(m, k)} {m[k]} :: old(allocated(m)) ==> ((k in m) <==> old(k in m)) && m[k] == old(m[k])
 //@   requires node: nodeOK(n)
 //@   modifies n.ary, n.which, n.ary.nodes
 //@   ensures[C01,C05] ary-ptr: n.ary == old(n.ary) || fresh(n.ary) || n.ary == nil
@@ -481,6 +484,7 @@ package jsonpatch
 //@   ensures[C08] bad-index-is-not-test-failed: reached(findObject#1) && con != nil && isAry(con) && key != "" && !at(findObject#1, conHas(con, key, neg)) ==> err != nil && !isTestFailed(err)
 
 //@ func (Patch).copy
+//@   callsite[C01] deepCopy#1 whole-document-source-is-the-current-document: from == "" ==> arg_src != nil && ((isDoc(*doc) && arg_src.which == eDoc && arg_src.doc == docOf(*doc)) || (isAry(*doc) && arg_src.which == eAry && arg_src.ary == aryOf(*doc)))
 //@   requires args: doc != nil && options != nil && accumulatedCopySize != nil && conOK(*doc)
 //@   requires op: opOK(op) && validOp(op) && opKind(op) == "copy"
 //@   requires total: *accumulatedCopySize >= 0
@@ -589,6 +593,7 @@ package jsonpatch
 // ---- RFC 7396 merge (C02, C07) ----
 
 //@ func pruneNulls
+//@   ensures[C02] members-only-disappear: forall m map[string]*lazyNode, k string {domsel(m, k)} {m[k]} :: old(allocated(m)) && k in m ==> old(k in m) && m[k] == old(m[k])
 //@   requires node: n != nil && childOK(n) && kind(val(*n.raw)) != KNull
 //@   requires options: options != nil
 //@   requires tree: noNullKids()
@@ -599,6 +604,8 @@ package jsonpatch
 //@   ensures[C02,C05] obj-ptrs: forall d *partialDoc {d.obj} :: old(allocated(d) && d.obj != nil) ==> d.obj == old(d.obj)
 
 //@ func pruneDocNulls
+//@   ensures[C02] members-only-disappear: forall m map[string]*lazyNode, k string {domsel(m, k)} {m[k]} :: old(allocated(m)) && k in m ==> old(k in m) && m[k] == old(m[k])
+//@   ensures[C02] no-null-members-left: forall k string {domsel(doc.obj, k)} :: k in doc.obj ==> doc.obj[k] != nil
 //@   requires doc: doc != nil && allocated(doc) && options != nil
 //@   requires tree: noNullKids()
 //@   modifies region(lazyNode.which), region(lazyNode.doc), region(lazyNode.ary), region(partialDoc.obj), region(partialDoc.keys), region(partialDoc.opts), region(partialArray.nodes), region(elem string), region(map map[string]*lazyNode)
@@ -610,8 +617,12 @@ package jsonpatch
 //@   invariant tree: noNullKids()
 //@   invariant children-stable: forall c *lazyNode {c.which} :: old(childOK(c)) ==> childOK(c)
 //@   invariant obj-ptrs: forall d *partialDoc {d.obj} :: old(allocated(d) && d.obj != nil) ==> d.obj == old(d.obj)
+//@   invariant members-only-disappear: forall m map[string]*lazyNode, k string {domsel(m, k)} {m[k]} :: old(allocated(m)) && k in m ==> old(k in m) && m[k] == old(m[k])
+//@   invariant no-null-members-so-far: forall k string {domsel(doc.obj, k)} :: visited(k) && k in doc.obj ==> doc.obj[k] != nil
+//@   invariant same-map: doc.obj == old(doc.obj)
 
 //@ func pruneAryNulls
+//@   ensures[C02] maps-kept: forall m map[string]*lazyNode, k string {domsel(m, k)} {m[k]} :: old(allocated(m)) ==> ((k in m) <==> old(k in m)) && m[k] == old(m[k])
 //@   requires ary: ary != nil && allocated(ary) && options != nil
 //@   requires tree: noNullKids()
 //@   modifies ary.nodes
@@ -692,3 +703,75 @@ package jsonpatch
 //@   callsite[C15] WriteByte#4 closes-object: arg_c == '}'
 //@   loop 1
 //@   invariant keys-fixed: n.keys == old(n.keys) && n.obj == old(n.obj) && n.opts == old(n.opts)
+
+// ---- CreateMergePatch (C03): one level of the difference at a time ----
+// The decoded trees are map[string]interface{} / []interface{} / string / json.Number / bool / nil (IfaceMaps).
+
+//@ func matchesArray
+//@   modifies nothing
+//@   ensures[C03] length: result ==> len(a) == len(b)
+//@   ensures[C03] nil-vs-empty: result ==> ((a == nil) <==> (b == nil))
+//@   ensures[C03] empty: len(a) == 0 && len(b) == 0 && ((a == nil) <==> (b == nil)) ==> result
+
+//@ func matchesValue
+//@   modifies nothing
+//@   ensures[C03] kinds-differ: dyntype(av) != dyntype(bv) ==> !result
+//@   ensures[C03] strings: istype(av, string) && istype(bv, string) ==> (result <==> unbox(av, string) == unbox(bv, string))
+//@   ensures[C03] numbers-by-literal: istype(av, json.Number) && istype(bv, json.Number) ==> (result <==> unbox(av, json.Number) == unbox(bv, json.Number))
+//@   ensures[C03] bools: istype(av, bool) && istype(bv, bool) ==> (result <==> unbox(av, bool) == unbox(bv, bool))
+//@   ensures[C03] nulls: av == nil && bv == nil ==> result
+//@   ensures[C03] objects-same-size: istype(av, map[string]any) && istype(bv, map[string]any) && result ==> len(unbox(av, map[string]any)) == len(unbox(bv, map[string]any))
+//@   ensures[C03] objects-same-names: istype(av, map[string]any) && istype(bv, map[string]any) && result ==> forall k string {domsel(unbox(bv, map[string]any), k)} :: k in unbox(bv, map[string]any) ==> k in unbox(av, map[string]any)
+//@   ensures[C03] arrays-same-length: istype(av, []any) && istype(bv, []any) && result ==> len(unbox(av, []any)) == len(unbox(bv, []any))
+//@   loop 1
+//@   invariant names-so-far: forall k string {domsel(unbox(bv, map[string]any), k)} :: visited(k) && k in unbox(bv, map[string]any) ==> k in unbox(av, map[string]any)
+
+//@ func getDiff
+//@   ensures[C03,C04] never-fails: err == nil && result.0 != nil && fresh(result.0)
+//@   ensures[C03] added-members: forall k string {domsel(b, k)} :: k in b && !(k in a) ==> k in result.0 && result.0[k] == b[k]
+//@   ensures[C03] removed-members-are-null: forall k string {domsel(a, k)} :: k in a && !(k in b) ==> k in result.0 && result.0[k] == nil
+//@   ensures[C03] kind-changed: forall k string {domsel(b, k)} :: k in b && k in a && dyntype(a[k]) != dyntype(b[k]) ==> k in result.0 && result.0[k] == b[k]
+//@   ensures[C03] mentions-only-members: forall k string {domsel(result.0, k)} :: k in result.0 ==> k in a || k in b
+//@   ensures[C03] changed-string: forall k string {domsel(b, k)} :: k in b && k in a && istype(a[k], string) && istype(b[k], string) ==> ((k in result.0) <==> unbox(a[k], string) != unbox(b[k], string)) && (k in result.0 ==> result.0[k] == b[k])
+//@   ensures[C03] changed-number-by-literal: forall k string {domsel(b, k)} :: k in b && k in a && istype(a[k], json.Number) && istype(b[k], json.Number) ==> ((k in result.0) <==> unbox(a[k], json.Number) != unbox(b[k], json.Number)) && (k in result.0 ==> result.0[k] == b[k])
+//@   ensures[C03] changed-bool: forall k string {domsel(b, k)} :: k in b && k in a && istype(a[k], bool) && istype(b[k], bool) ==> ((k in result.0) <==> unbox(a[k], bool) != unbox(b[k], bool)) && (k in result.0 ==> result.0[k] == b[k])
+//@   ensures[C03] both-null-omitted: forall k string {domsel(b, k)} :: k in b && k in a && a[k] == nil && b[k] == nil ==> !(k in result.0)
+//@   ensures[C03] nested-object-is-a-difference: forall k string {domsel(b, k)} :: k in b && k in a && istype(a[k], map[string]any) && istype(b[k], map[string]any) && k in result.0 ==> istype(result.0[k], map[string]any) && len(unbox(result.0[k], map[string]any)) > 0
+//@   ensures[C03] changed-array-replaced: forall k string {domsel(b, k)} :: k in b && k in a && istype(a[k], []any) && istype(b[k], []any) && k in result.0 ==> result.0[k] == b[k]
+//@   loop 1
+//@   invariant into: into != nil && fresh(into)
+//@   invariant only-seen-members: forall k string {domsel(into, k)} :: k in into ==> visited(k) && k in b
+//@   invariant added-so-far: forall k string {domsel(b, k)} :: visited(k) && k in b && !(k in a) ==> k in into && into[k] == b[k]
+//@   invariant kind-changed-so-far: forall k string {domsel(b, k)} :: visited(k) && k in b && k in a && dyntype(a[k]) != dyntype(b[k]) ==> k in into && into[k] == b[k]
+//@   invariant strings-so-far: forall k string {domsel(b, k)} :: visited(k) && k in b && k in a && istype(a[k], string) && istype(b[k], string) ==> ((k in into) <==> unbox(a[k], string) != unbox(b[k], string)) && (k in into ==> into[k] == b[k])
+//@   invariant numbers-so-far: forall k string {domsel(b, k)} :: visited(k) && k in b && k in a && istype(a[k], json.Number) && istype(b[k], json.Number) ==> ((k in into) <==> unbox(a[k], json.Number) != unbox(b[k], json.Number)) && (k in into ==> into[k] == b[k])
+//@   invariant bools-so-far: forall k string {domsel(b, k)} :: visited(k) && k in b && k in a && istype(a[k], bool) && istype(b[k], bool) ==> ((k in into) <==> unbox(a[k], bool) != unbox(b[k], bool)) && (k in into ==> into[k] == b[k])
+//@   invariant nulls-so-far: forall k string {domsel(b, k)} :: visited(k) && k in b && k in a && a[k] == nil && b[k] == nil ==> !(k in into)
+//@   invariant nested-so-far: forall k string {domsel(b, k)} :: visited(k) && k in b && k in a && istype(a[k], map[string]any) && istype(b[k], map[string]any) && k in into ==> istype(into[k], map[string]any) && len(unbox(into[k], map[string]any)) > 0
+//@   invariant arrays-so-far: forall k string {domsel(b, k)} :: visited(k) && k in b && k in a && istype(a[k], []any) && istype(b[k], []any) && k in into ==> into[k] == b[k]
+//@   loop 2
+//@   invariant into: into != nil && fresh(into)
+//@   invariant only-members: forall k string {domsel(into, k)} :: k in into ==> k in b || (visited(k) && k in a)
+//@   invariant removed-so-far: forall k string {domsel(a, k)} :: visited(k) && k in a && !(k in b) ==> k in into && into[k] == nil
+//@   invariant members-of-b-kept: forall k string {domsel(b, k)} :: k in b ==> ((k in into) <==> atentry(k in into)) && into[k] == atentry(into[k])
+
+//@ func resemblesJSONArray
+//@   modifies nothing
+//@   ensures[C03] array-root-resembles: wf(input) && kind(val(bytes(input))) == KArr ==> result
+//@   ensures[C03] other-roots-do-not: wf(input) && kind(val(bytes(input))) != KArr ==> !result
+
+//@ func createObjectMergePatch
+//@   callsite[C03] getDiff#1 difference-of-the-two-decoded-documents: arg_a == originalDoc && arg_b == modifiedDoc
+//@   callsite[C03] Marshal#1 the-difference-is-what-is-returned: arg_v == dest
+//@   ensures[C03,C16] rejects-ill-formed: !wf(originalJSON) || !wf(modifiedJSON) ==> err != nil && result.0 == nil
+//@   ensures[C03] rejects-non-objects: wf(originalJSON) && wf(modifiedJSON) && ((kind(val(bytes(originalJSON))) != KObj && kind(val(bytes(originalJSON))) != KNull) || (kind(val(bytes(modifiedJSON))) != KObj && kind(val(bytes(modifiedJSON))) != KNull)) ==> err != nil && result.0 == nil
+
+//@ func createArrayMergePatch
+//@   callsite[C03] createObjectMergePatch#1 element-by-element: arg_originalJSON == originalDocs[i] && arg_modifiedJSON == modifiedDocs[i]
+//@   ensures[C03,C16] rejects-ill-formed: !wf(originalJSON) || !wf(modifiedJSON) ==> err != nil && result.0 == nil
+//@   ensures[C03] rejects-different-lengths: wf(originalJSON) && wf(modifiedJSON) && kind(val(bytes(originalJSON))) == KArr && kind(val(bytes(modifiedJSON))) == KArr && jlen(val(bytes(originalJSON))) != jlen(val(bytes(modifiedJSON))) ==> err != nil && result.0 == nil
+
+//@ func CreateMergePatch
+//@   ensures[C03,C16] rejects-ill-formed: !wf(originalJSON) || !wf(modifiedJSON) ==> err != nil
+//@   ensures[C03] rejects-mixed-roots: wf(originalJSON) && wf(modifiedJSON) && ((kind(val(bytes(originalJSON))) == KArr) != (kind(val(bytes(modifiedJSON))) == KArr)) ==> err != nil && result.0 == nil
+//@   ensures[C03] rejects-scalar-roots: wf(originalJSON) && wf(modifiedJSON) && kind(val(bytes(originalJSON))) != KArr && kind(val(bytes(modifiedJSON))) != KArr && ((kind(val(bytes(originalJSON))) != KObj && kind(val(bytes(originalJSON))) != KNull) || (kind(val(bytes(modifiedJSON))) != KObj && kind(val(bytes(modifiedJSON))) != KNull)) ==> err != nil
